@@ -245,3 +245,35 @@ func escModel(b []byte, startLoc int, bnl bool) []byte {
 	}
 	return out
 }
+
+// retained keeps byte-slice results handed out by the library together with a deep
+// copy, so that a later call that scribbles over an earlier result (a result that
+// aliases pooled or shared storage) is noticed.
+type retained struct {
+	live, cp [][]byte
+	what     []string
+}
+
+func (r *retained) keep(b []byte, what string) {
+	if r == nil || len(b) == 0 {
+		return
+	}
+	if len(r.live) >= 8 {
+		r.live, r.cp, r.what = r.live[1:], r.cp[1:], r.what[1:]
+	}
+	r.live = append(r.live, b)
+	r.cp = append(r.cp, append([]byte(nil), b...))
+	r.what = append(r.what, what)
+}
+
+func (r *retained) check() string {
+	if r == nil {
+		return ""
+	}
+	for i := range r.live {
+		if !bytes.Equal(r.live[i], r.cp[i]) {
+			return "a result returned earlier (" + r.what[i] + ") was modified by a later call: " + q(string(r.cp[i])) + " -> " + q(string(r.live[i]))
+		}
+	}
+	return ""
+}
